@@ -4,6 +4,7 @@ package measure
 
 import (
 	"context"
+	"errors"
 	"os"
 	"sort"
 	"sync/atomic"
@@ -354,6 +355,9 @@ func (w *V5View) Unpin() { w.snp.decRef() }
 
 // TakeFileSnapshot is tsTable.TakeFileSnapshot.
 func (v *V5Table) TakeFileSnapshot(dst string) (bool, error) { return v.tst.TakeFileSnapshot(dst) }
+
+// V5IsNoSnapshot reports whether err is storage.ErrNoCurrentSnapshot (the table holds no snapshot to copy).
+func V5IsNoSnapshot(err error) bool { return errors.Is(err, storage.ErrNoCurrentSnapshot) }
 
 // Close is tsTable.Close.
 func (v *V5Table) Close() { _ = v.tst.Close() }
